@@ -132,6 +132,23 @@ func (e *c10error) Error() string {
 	return e.s
 }
 
+// c10group is an error that also exposes its causes the way multierr and
+// similar packages do (an Errors() []error method, which zap looks for); like
+// a careless user type, neither method tolerates a nil receiver.
+type c10group struct {
+	s      string
+	causes []error
+	panic  string // Errors() panics with this text
+}
+
+func (e *c10group) Error() string { return e.s }
+func (e *c10group) Errors() []error {
+	if e.panic != "" {
+		panic(e.panic)
+	}
+	return e.causes
+}
+
 type c10obj struct {
 	n       *c10node
 	healthy bool
@@ -253,6 +270,16 @@ func (n *c10node) field(healthy bool) zap.Field {
 		}
 		return zap.Stringer(n.key, s)
 	case c10Err:
+		if n.val%3 == 1 {
+			e := &c10group{s: fmt.Sprintf("grp%d", n.val), causes: []error{errors.New("cause-a"), &c10error{s: "cause-b"}}}
+			switch f {
+			case ftPanic:
+				e.panic = boom(n.id)
+			case ftTypedNil:
+				e = nil
+			}
+			return zap.NamedError(n.key, e)
+		}
 		var e *c10error
 		switch f {
 		case ftPanic:
@@ -277,8 +304,14 @@ func (n *c10node) field(healthy bool) zap.Field {
 		switch f {
 		case ftPanic:
 			vals[2] = &c10error{panic: boom(n.id)}
+			if n.val%2 == 1 {
+				vals[2] = &c10group{s: "g", panic: boom(n.id)}
+			}
 		case ftTypedNil:
 			vals[0] = (*c10error)(nil)
+			if n.val%2 == 1 {
+				vals[0] = (*c10group)(nil)
+			}
 		}
 		return zap.Errors(n.key, vals)
 	case c10Objects:
